@@ -2,12 +2,16 @@
 
 use crate::util::Ctx;
 
+pub mod c04;
 pub mod c06;
+pub mod c13;
 pub mod c19;
 
 pub fn dispatch(ctx: &mut Ctx) -> bool {
 	match ctx.id.as_str() {
+		"C04" => c04::run(ctx),
 		"C06" => c06::run(ctx),
+		"C13" => c13::run(ctx),
 		"C19" => c19::run(ctx),
 		_ => return false,
 	}
@@ -19,7 +23,9 @@ pub fn dispatch(ctx: &mut Ctx) -> bool {
 pub fn confirm(key: &str) -> Option<Option<String>> {
 	let prop = key.split('.').next().unwrap_or("");
 	match prop {
+		"C04" => c04::confirm(key),
 		"C06" => c06::confirm(key),
+		"C13" => c13::confirm(key),
 		"C19" => c19::confirm(key),
 		_ => None,
 	}
